@@ -33,6 +33,9 @@ class HarnessStuck(Exception):
 
 
 # ----------------------------------------------------------------------------- managers
+_ACCESS = threading.local()
+
+
 class Mgr:
     """everything the harness knows about one manager; built once per process"""
     _cache = {}
@@ -71,8 +74,16 @@ class Mgr:
 
         def marker(self_, *a, **k):
             return ("c17", self_)
-        A_ = type("A_", (Base,), {fn: marker}, backend_name=self.names[self.harness_names[0]])
-        B_ = type("B_", (Base,), {fn: marker}, backend_name=self.names[self.harness_names[1]])
+
+        def logged_getattribute(self_, name):
+            # which object does a dispatched function / attribute fetch its implementation from?
+            log = _ACCESS.__dict__.get("log")
+            if log is not None:
+                log.append((self_, name))
+            return object.__getattribute__(self_, name)
+        body = {fn: marker, "__getattribute__": logged_getattribute}
+        A_ = type("A_", (Base,), dict(body), backend_name=self.names[self.harness_names[0]])
+        B_ = type("B_", (Base,), dict(body), backend_name=self.names[self.harness_names[1]])
         X_ = type("X_", (Other,), {}, backend_name=other_kw)
         self.classes = {A_: self.harness_names[0], B_: self.harness_names[1]}
         self.pool = [A_(), B_(), A_(), B_()]                    # Obj 0..3
@@ -152,7 +163,32 @@ class Mgr:
             return tok[1]
         return None
 
-    def observe(self):
+    def sweep(self, expected):
+        """EVERY dynamically dispatched function and attribute of the manager must fetch its implementation from
+        `expected` (an instance of a harness class, whose attribute accesses are logged): the functions are called
+        without arguments - the look-up happens before the call fails.  Returns the names that went elsewhere."""
+        m = self.mgr
+        wrong = []
+        funs = list(dict.fromkeys(getattr(m, "_functions", [])))
+        attrs = [a for a in dict.fromkeys(getattr(m, "_attributes", [])) if a not in funs]
+        for name in funs + attrs:
+            _ACCESS.log = log = []
+            try:
+                if name in funs:
+                    getattr(self.mod, name)()        # tensorly.<name> / tensorly.tenalg.<name>
+                else:
+                    getattr(m, name)                 # attributes are dispatched on the manager module only: tensorly/__init__.py
+                    #                                  binds int64, float64, pi, ... statically at import (not functions; out of scope)
+            except Exception:
+                pass
+            finally:
+                _ACCESS.log = None
+            hit = [o for (o, n) in log if n == name]
+            if not hit or hit[0] is not expected:
+                wrong.append(name)
+        return wrong
+
+    def observe(self, full=False):
         """executed INSIDE the observed thread: (name code, dispatch token | None, problems)"""
         m = self.mgr
         q = m.get_backend()
@@ -178,16 +214,28 @@ class Mgr:
             a2 = m.backend_name
             if a1 != q or a2 != q:
                 routes.append(("backend_name attribute", (a1, a2)))
+            q2 = self.mod.get_backend()                     # the top-level alias tensorly.get_backend
+            if q2 != q:
+                routes.append(("tensorly.get_backend()", q2))
+        if full and type(cb) in self.classes and d3 == d:
+            wrong = self.sweep(cb)
+            if wrong:
+                routes.append(("dispatched names not served by the current backend", wrong[:8]))
         return (qc, d, routes)
 
+    def api(self, tid):
+        """the public entry points: tensorly.set_backend / tensorly.backend_context (top-level aliases) for even
+        thread ids, the manager module for odd ones"""
+        return self.mod if (not self.tenalg and tid % 2 == 0) else self.mgr
 
-def observe_mode(mode):
+
+def observe_mode(mode, full=False):
     """what the calling thread sees: (through tensorly.backend | None, through tensorly.tenalg | None)"""
     out = []
     for m in (0, 1):
         if mode == 2 or mode == m:
             try:
-                out.append(Mgr.get(m).observe())
+                out.append(Mgr.get(m).observe(full))
             except Exception as e:  # noqa
                 out.append((98, ("?", "observe raised " + repr(e)[:80]), []))
         else:
@@ -196,12 +244,60 @@ def observe_mode(mode):
 
 
 # ----------------------------------------------------------------------------- threads
+class Stepper:
+    """line-granular turn taking (sys.settrace) between threads that each execute ONE manager call: every entry
+    of a schedule lets the named thread run up to the next source line of the traced files"""
+
+    def __init__(self, tids, files):
+        self.go = {t: threading.Semaphore(0) for t in tids}
+        self.done_line = threading.Semaphore(0)
+        self.finished = {t: False for t in tids}
+        self.files = files
+        self.lines = 0
+
+    def tracer(self, tid):
+        def local(frame, event, arg):
+            if event == "line":
+                self.done_line.release()          # about to execute a line: hand the turn back
+                if not self.go[tid].acquire(timeout=TIMEOUT):
+                    raise HarnessStuck(f"traced thread {tid} was never scheduled again")
+            return local
+
+        def glob(frame, event, arg):
+            return local if frame.f_code.co_filename in self.files else None
+        return glob
+
+    def start(self, tid):
+        if not self.go[tid].acquire(timeout=TIMEOUT):
+            raise HarnessStuck(f"traced thread {tid} was never started")
+        sys.settrace(self.tracer(tid))
+
+    def finish(self, tid):
+        sys.settrace(None)
+        self.finished[tid] = True
+        self.done_line.release()
+
+    def run(self, schedule):
+        tids = list(self.go)
+        for t in itertools.chain(schedule, itertools.cycle(tids)):
+            if all(self.finished.values()):
+                break
+            if self.finished[t]:
+                continue
+            self.go[t].release()
+            if not self.done_line.acquire(timeout=TIMEOUT):
+                raise HarnessStuck(f"traced thread {t} did not reach its next line")
+            self.lines += 1
+
+
 class Worker:
     def __init__(self, mode, tid):
         self.mode, self.tid = mode, tid
         self.q = queue.SimpleQueue()
         self.r = queue.SimpleQueue()
         self.thread = None
+        self.exit_stepper = None
+        self.full = False
 
     def start(self):
         self.thread = threading.Thread(target=self.main, daemon=True)
@@ -221,8 +317,10 @@ class Worker:
             raise HarnessStuck(f"thread {self.tid} did not answer {cmd!r}")
 
     def reply(self, res):
-        """outcome of an operation + what THIS thread observes right after it (saves one hand-over per step)"""
-        self.r.put((res, observe_mode(self.mode)))
+        """outcome of an operation + what THIS thread observes right after it (saves one hand-over per step);
+        the acting thread also sweeps ALL dispatched names when it is asked to (last operation of a history)"""
+        self.r.put((res, observe_mode(self.mode, self.full)))
+        self.full = False
 
     def body(self, depth):
         """serve commands at context depth `depth`; returns 'normal' (leave the innermost context normally)
@@ -232,35 +330,75 @@ class Worker:
             k = cmd[0]
             if k == "obs":
                 self.r.put(observe_mode(self.mode))
+            elif k == "full":
+                self.full = True
             elif k == "set":
+                # cmd[4] (optional): a Stepper under whose line-granular control the call is made
                 M = Mgr.get(cmd[1])
+                st = cmd[4] if len(cmd) > 4 else None
                 try:
-                    M.mgr.set_backend(M.sel_obj(cmd[2]), local_threadsafe=cmd[3])
+                    if st is not None:
+                        st.start(self.tid)
+                    try:
+                        if cmd[3] or self.tid % 2 == 0:
+                            M.api(self.tid).set_backend(M.sel_obj(cmd[2]), local_threadsafe=cmd[3])
+                        else:                            # the default of the flag is "not thread-local"
+                            M.api(self.tid).set_backend(M.sel_obj(cmd[2]))
+                    finally:
+                        if st is not None:
+                            st.finish(self.tid)
                     self.reply("done")
+                except HarnessStuck:
+                    raise
                 except Exception as e:  # noqa
                     self.reply("rejected")
             elif k == "enter":
                 M = Mgr.get(cmd[1])
+                st = [cmd[4]] if len(cmd) > 4 else []
                 entered, how = False, "swallowed"
+
+                def untrace():
+                    while st:
+                        st.pop().finish(self.tid)
                 try:
-                    with M.mgr.backend_context(M.sel_obj(cmd[2]), local_threadsafe=cmd[3]):
-                        entered = True
-                        self.reply("done")
-                        how = self.body(depth + 1)
+                    if st:
+                        st[0].start(self.tid)
+                    try:
+                        kw = {"local_threadsafe": cmd[3]} if (cmd[3] or self.tid % 2 == 1) else {}
+                        with M.api(self.tid).backend_context(M.sel_obj(cmd[2]), **kw):
+                            untrace()                    # only the entry is traced
+                            entered = True
+                            self.reply("done")
+                            how = self.body(depth + 1)
+                            xs, self.exit_stepper = self.exit_stepper, None
+                            if xs is not None:           # cmd ("exit", exn, stepper): the exit is traced
+                                st.append(xs)
+                                xs.start(self.tid)
+                            if how == "boom":
+                                raise Boom()
+                    finally:
+                        untrace()
                     if how in ("stop", "quit"):
                         return how
                     self.reply("done" if how == "normal" else "exitfailed")
                 except Boom:
                     self.reply("done" if entered else "exitfailed")
+                except HarnessStuck:
+                    raise
                 except Exception as e:  # noqa
+                    if how in ("stop", "quit"):      # unwinding at the end of a history: a failing exit must not
+                        return how                   # leave this thread serving commands at the wrong depth
                     self.reply("exitfailed" if entered else "rejected")
             elif k == "exit":
                 if depth == 0:
+                    if len(cmd) > 2:
+                        cmd[2].start(self.tid)
+                        cmd[2].finish(self.tid)
                     self.reply("noctx")
-                elif cmd[1]:
-                    raise Boom()
                 else:
-                    return "normal"
+                    if len(cmd) > 2:
+                        self.exit_stepper = cmd[2]
+                    return "boom" if cmd[1] else "normal"
             elif k in ("stop", "quit"):
                 return k
 
@@ -290,8 +428,10 @@ def drive(mode, history, main_worker, nthreads):
     try:
         obs0 = observe_all()
         steps = []
-        for op in history:
+        for i, op in enumerate(history):
             kind, t = op[0], op[1]
+            if i == len(history) - 1:
+                workers[t].q.put(("full",))      # no answer: the next reply of that thread carries the sweep
             if kind in ("set", "enter"):
                 res = workers[t].call((kind, op[2], op[3], op[4]))
             else:
@@ -349,6 +489,148 @@ def run_histories(mode, main_actor, nthreads, histories):
     if err:
         raise err[0]
     return out
+
+
+# ----------------------------------------------------------------------------- line-granular schedules of two concurrent calls
+def traced_files():
+    import tensorly.backend as B
+    import tensorly.tenalg as T
+    return {B.__file__, T.__file__}
+
+
+def drive_micro(m, scenario):
+    """scenario = (setup, opA, opB, post, schedule) on manager m; threads: 0 main (passive, holds the import-time
+    selection), 1 and 2 (actors), 3 (passive, no selection).  setup / post run one operation at a time; opA (thread 1)
+    and opB (thread 2) run concurrently under a line-granular schedule.  Returns (resA, resB, obs, post_steps, lines)."""
+    setup, opA, opB, post, schedule = scenario
+    nthreads = 4
+    workers = {}
+    for t in range(1, nthreads):
+        w = Worker(m, t)
+        w.start()
+        workers[t] = w
+
+    def observe_all(actor=None, own=None):
+        return [own if t == actor else (observe_mode(m) if t == 0 else workers[t].call(("obs",))) for t in range(nthreads)]
+
+    def cmd_of(op, st=None):
+        extra = (st,) if st is not None else ()
+        if op[0] in ("set", "enter"):
+            return (op[0], op[2], op[3], op[4]) + extra
+        return ("exit", op[3]) + extra
+
+    def atomic(op):
+        res = workers[op[1]].call(cmd_of(op))
+        if isinstance(res, tuple) and res and res[0] == "harness-error":
+            raise HarnessStuck(str(res))
+        return res
+    try:
+        for op in setup:
+            atomic(op)
+        st = Stepper([opA[1], opB[1]], traced_files())
+        for op in (opA, opB):
+            workers[op[1]].q.put(cmd_of(op, st))
+        st.run(schedule)
+        out = []
+        for op in (opA, opB):
+            try:
+                res = workers[op[1]].r.get(timeout=TIMEOUT)
+            except queue.Empty:
+                raise HarnessStuck(f"thread {op[1]} did not answer the traced {op[0]}")
+            if isinstance(res, tuple) and res and res[0] == "harness-error":
+                raise HarnessStuck(str(res))
+            out.append(res[0])
+        obs = observe_all()
+        steps = []
+        for op in post:
+            res, own = atomic(op)
+            steps.append((res, observe_all(op[1], own)))
+        return out[0], out[1], obs, steps, st.lines
+    finally:
+        for w in workers.values():
+            w.q.put(("stop",))
+        for w in workers.values():
+            if w.thread is not None:
+                w.thread.join(timeout=TIMEOUT)
+
+
+def random_scenario(rng, m):
+    """set-up (0-3 valid operations of threads 1-3), one operation each for threads 1 and 2, the exits that close
+    what is open afterwards, a line schedule"""
+    M = Mgr.get(m)
+    valid = [("o", k) for k in range(len(M.pool))] + [("n", k) for k in M.names if M.sel_valid(("n", k))]
+    bad = [("n", k) for k in M.names if not M.sel_valid(("n", k))] + [("f", 0)]
+    depth = {1: 0, 2: 0, 3: 0}
+    setup = []
+    for _ in range(rng.choice([0, 1, 1, 2, 2, 3])):
+        t = rng.choice([1, 2, 3])
+        kind = rng.choice(["set", "enter"]) if t != 3 else "set"
+        setup.append((kind, t, m, rng.choice(valid), rng.random() < 0.6))
+        if kind == "enter":
+            depth[t] += 1
+
+    def one(t):
+        r = rng.random()
+        if depth[t] and r < 0.5:
+            depth[t] -= 1
+            return ("exit", t, m, rng.random() < 0.4)
+        s = rng.choice(bad) if rng.random() < 0.12 else rng.choice(valid)
+        kind = "enter" if r < 0.7 else "set"
+        if kind == "enter" and M.sel_valid(s):
+            depth[t] += 1
+        return (kind, t, m, s, rng.random() < 0.4)
+    opA, opB = one(1), one(2)
+    post = []
+    order = [t for t in (1, 2) for _ in range(depth[t])]
+    rng.shuffle(order)
+    for t in order:
+        post.append(("exit", t, m, rng.random() < 0.3))
+    style = rng.random()
+    if style < 0.5:       # one thread runs k lines, the other completes, the first resumes
+        a, b = rng.choice([(1, 2), (2, 1)])
+        schedule = [a] * rng.randint(0, 14) + [b] * 40
+    else:
+        schedule = [rng.choice([1, 2]) for _ in range(40)]
+    return (tuple(setup), opA, opB, tuple(post), tuple(schedule))
+
+
+def op_digits(op):
+    if op[0] == "exit":
+        return [2 + 4 * op[2], op[1], int(op[3]), 0, 0]
+    return [(0 if op[0] == "set" else 1) + 4 * op[2], op[1], SELKIND[op[3][0]], op[3][1], int(op[4])]
+
+
+def encode_micro(m, scenario, result):
+    """digit stream decoded by Corr/C17.v `decode_m` (leading digit 3)"""
+    setup, opA, opB, post, schedule = scenario
+    resA, resB, obs, steps, _ = result
+    ds = [3, m, 4, 1, len(setup)]
+    for op in setup:
+        ds += op_digits(op)
+    ds += op_digits(opA) + [OUTCOME.get(resA, 3)] + op_digits(opB) + [OUTCOME.get(resB, 3)]
+    ds += seen_digits(obs) + [len(post)]
+    for op, (res, o) in zip(post, steps):
+        ds += op_digits(op) + [OUTCOME.get(res, 3)] + seen_digits(o)
+    assert all(0 <= d < 64 for d in ds), ds
+    return ds
+
+
+def predicates_micro(m, scenario, result):
+    """what can be said without the model: query / dispatch consistency in every observation, and the follow-up
+    (atomic) exits succeed"""
+    M = Mgr.get(m)
+    resA, resB, obs, steps, _ = result
+    fails = []
+    for i, ob in [(-1, obs)] + [(j, o) for j, (_, o) in enumerate(steps)]:
+        for t, per in enumerate(ob):
+            o = per[m]
+            nm = M.token_name(o[1]) if o[1] is not None else None
+            if o[2] or (o[1] is None and o[0] not in M.stock) or (o[1] is not None and nm != o[0]):
+                fails.append(("C17_observe", i, f"thread {t}: get_backend() code {o[0]} vs executing object {o[1]} / routes {o[2]} after concurrent calls"))
+    for j, (res, _) in enumerate(steps):
+        if res != "done":
+            fails.append(("C17_exit_succeeds", j, f"follow-up exit ended abnormally: {res}"))
+    return fails
 
 
 # ----------------------------------------------------------------------------- histories
@@ -618,6 +900,8 @@ def _pool_job(job):
     per history (case literal without id, first predicate failure | None, [operation:outcome ...]);
     plus, for the first history, a copy of its literal with ONE observation altered (sentinel) and a sample"""
     mode, main_actor, nthreads, histories = job
+    if mode >= 3:
+        return _micro_job(mode - 3, histories)
     results = run_histories(mode, main_actor, nthreads, histories)
     out = []
     for h, r in zip(histories, results):
@@ -640,6 +924,22 @@ def _pool_job(job):
                                                 for o in obs] for _, obs in r[1]]}
         extra = (pack(ds), sample)
     return out, extra
+
+
+def _micro_job(m, scenarios):
+    Ms = Mgr.both()
+    out, nlines = [], 0
+    for sc in scenarios:
+        for M in Ms:
+            M.reset()
+        r = drive_micro(m, sc)
+        nlines += r[4]
+        fails = predicates_micro(m, sc, r)
+        out.append((pack(encode_micro(m, sc, r)), fails[0] if fails else None,
+                    [f"{'tenalg' if m else 'backend'}.concurrent {sc[1][0]}|{sc[2][0]}:{r[0]}|{r[1]}"]))
+    for M in Ms:
+        M.reset()
+    return out, None
 
 
 def execute(groups, nproc):
@@ -681,8 +981,8 @@ def make_groups(tier, rng):
             small = SEL_SMALL if M.names_registered else [("o", 1), ("n", 4)]
             groups.append((m, False, 3, exhaustive([1, 2], [m], small, 4), "exhaustive-4-small-alphabet"))
         # the main thread acts as well: all histories of length 2 (thorough: 3) over main + one worker
-        groups.append((m, True, 2, exhaustive([0, 1], [m], sels, 2 if quick else 3), "exhaustive-main"))
-        nr = 1000 if quick else 8000
+        groups.append((m, True, 2, exhaustive([0, 1], [m], sels, 2), "exhaustive-main"))
+        nr = 1000 if quick else 5000
         ml = 12 if quick else 40
         groups.append((m, True, 3, [random_history(rng, [0, 1, 2], [m], ml) for _ in range(nr)], "random-3-main"))
         groups.append((m, False, 4, [random_history(rng, [1, 2, 3], [m], ml) for _ in range(nr // 3)], "random-3-workers"))
@@ -690,8 +990,11 @@ def make_groups(tier, rng):
     groups.append((2, True, 2, exhaustive([0, 1], [0, 1], SEL_SMALL, 2), "mixed-exhaustive-2"))
     if not quick:
         groups.append((2, False, 3, exhaustive([1, 2], [0, 1], SEL_SMALL, 3), "mixed-exhaustive-3"))
-    nr = 1200 if quick else 8000
+    nr = 1200 if quick else 5000
     groups.append((2, True, 3, [random_history(rng, [0, 1, 2], [0, 1], 12 if quick else 30) for _ in range(nr)], "mixed-random-3-main"))
+    # two concurrent calls under line-granular schedules (sys.settrace turn taking), then the exits one at a time
+    for m in (0, 1):
+        groups.append((3 + m, False, 4, [random_scenario(rng, m) for _ in range(300 if quick else 4000)], "concurrent-pair-line-schedules"))
     return groups
 
 
@@ -714,6 +1017,17 @@ def hist_to_json(h):
 def hist_from_json(j):
     return tuple((o[0], int(o[1]), int(o[2]), (o[3][0], int(o[3][1])), bool(o[4])) if o[0] != "exit"
                  else (o[0], int(o[1]), int(o[2]), bool(o[3])) for o in j)
+
+
+def scenario_to_json(sc):
+    setup, opA, opB, post, schedule = sc
+    return {"setup": hist_to_json(setup), "a": hist_to_json([opA])[0], "b": hist_to_json([opB])[0],
+            "post": hist_to_json(post), "schedule": list(schedule)}
+
+
+def scenario_from_json(j):
+    return (hist_from_json(j["setup"]), hist_from_json([j["a"]])[0], hist_from_json([j["b"]])[0],
+            hist_from_json(j["post"]), tuple(int(x) for x in j["schedule"]))
 
 
 ENTRY = {0: "tensorly.set_backend/backend_context", 1: "tensorly.tenalg.set_backend/backend_context",
@@ -745,15 +1059,20 @@ def run(chk):
         meta.append(None)
     for g, res in zip(groups, results):
         mode, main_actor, nthreads, hs, tag = g
-        gname = ["backend:", "tenalg:", "both:"][mode] + tag
+        gname = ["backend:", "tenalg:", "both:", "backend:", "tenalg:"][mode] + tag
         for h, (lit, fail, outs) in zip(hs, res):
             cid = len(cases)
             cases.append(f"({cid}, {lit})")
             meta.append((mode, main_actor, nthreads, h, tag))
-            nontrivial = len({op[1] for op in h}) > 1 and any(op[0] == "enter" for op in h)
+            if mode >= 3:
+                ops = list(h[0]) + [h[1], h[2]] + list(h[3])
+                nontrivial = any(op[0] != "set" for op in (h[1], h[2]))
+            else:
+                ops = h
+                nontrivial = len({op[1] for op in h}) > 1 and any(op[0] == "enter" for op in h)
             chk.count(key=(mode, main_actor, h), nontrivial=nontrivial)
             chk.hist("group", gname)
-            chk.hist("length", len(h))
+            chk.hist("length", len(ops))
             for o in outs:
                 chk.hist("operation", o)
             if fail is not None:
@@ -762,6 +1081,10 @@ def run(chk):
     found.sort()
     for (_, cid, (pred, i, msg)) in found[:60]:
         mode, main_actor, nthreads, h, tag = meta[cid]
+        if mode >= 3:
+            chk.finding(ENTRY[mode - 3], {"mode": mode, "scenario": scenario_to_json(h)},
+                        f"two concurrent calls under a line-granular schedule, follow-up step {i}: {msg}", pred)
+            continue
         chk.finding(ENTRY[mode], {"mode": mode, "main_actor": main_actor, "nthreads": nthreads, "history": hist_to_json(h[:i + 1])},
                     f"step {i} ({op_lit(h[i]) if i >= 0 else 'start'}): {msg}", pred)
     if len(found) > 60:
@@ -789,17 +1112,23 @@ def run(chk):
     chk.cov["rule"] = ("for EACH manager: every feasible history of length 3 (all shorter ones are their prefixes and are observed on the way) over the "
                        "28-letter alphabet {set, enter} x {known name, instance, unknown name} x {global, local} + exit {normal, exception} of two worker threads "
                        "with the main thread observing (thorough adds length 4 over the 20-letter alphabet without the known name); every history of length 2 "
-                       "(thorough: 3) over the main thread and one worker; random histories to length 12 (thorough: 40) over three actor threads with and without "
+                       "over the main thread and one worker; random histories to length 12 (thorough: 40) over three actor threads with and without "
                        "the main thread among them, selectors: all names (stock, harness-registered, listed-but-not-importable, unknown, wrong case, a name of the "
                        "OTHER manager), four instances of two harness backend classes, two non-instances. BOTH managers in one history: every history of length 2 "
                        "(thorough: 3 over two workers) over {main, worker} x {backend, tenalg} x {instance, unknown name}, random histories to length 12 (30) over "
-                       "three threads incl. main, every thread observing both managers. After EVERY operation EVERY thread reports get_backend() and the identity "
+                       "three threads incl. main, every thread observing both managers. Concurrent pairs: two calls (set / enter / exit) of threads 1 and 2 "
+                       "interleaved at source-line granularity by sys.settrace turn taking (300 random scenario x schedule per manager, thorough 4000), "
+                       "outcome compared with the set of outcomes of all sequential orders of their blocks (conclusion of C17_micro_atomic). After EVERY operation EVERY thread reports get_backend() and the identity "
                        "of the object executing a dispatched call. Non-trivial = at least two threads act and a context is entered; distinct key = (mode, "
                        "main-thread role, history). At most 40 disagreeing cases per shard of 2500 are listed")
     for b in broken:
         chk.broken.append({"what": "correspondence corr:C17 shard not evaluated", "detail": b})
     for i in sorted(failing):
         mode, main_actor, nthreads, h, tag = meta[i]
+        if mode >= 3:
+            chk.disagreement("corr:C17 micro (outcome of two concurrent calls under a line-granular schedule is not that of any sequential order of their blocks)",
+                             {"mode": mode, "scenario": scenario_to_json(h)})
+            continue
         chk.disagreement("corr:C17 (Model/Backend.v vs tensorly.backend / tensorly.tenalg managers)",
                          {"mode": mode, "main_actor": main_actor, "nthreads": nthreads, "history": hist_to_json(h)})
     chk.assumptions = ["operations are atomic: the driver issues one operation at a time and waits for it (the property quantifies over interleavings of whole operations)",
@@ -816,6 +1145,20 @@ def replay(payload):
         print("replay file names a broken theorem/correspondence, not an input:", payload.get("theorem_or_correspondence"))
         return 1
     inp = payload["inputs"]
+    if int(inp["mode"]) >= 3:
+        m = int(inp["mode"]) - 3
+        sc = scenario_from_json(inp["scenario"])
+        Ms = Mgr.both()
+        for M in Ms:
+            M.reset()
+        r = drive_micro(m, sc)
+        for M in Ms:
+            M.reset()
+            M.unmark()
+        fails = predicates_micro(m, sc, r)
+        for f in fails[:5]:
+            print("replay:", f)
+        return 1 if fails else 0
     mode, main_actor, nthreads = int(inp["mode"]), bool(inp["main_actor"]), int(inp["nthreads"])
     h = hist_from_json(inp["history"])
     Ms = Mgr.both()
